@@ -8,6 +8,7 @@ HKDF, AES-GCM, SHA-256 behave like these free constructors) for EVERY field `F`,
 with base point `g ≠ 0`, every key, member list, index, threshold, polynomial and every
 encrypted-deal term `e`.  Helper lemmas: `Proofs/VssSym.lean`.
 -/
+import DosModel.Gen.VssFacts
 import DosModel.Proofs.VssSym
 import Mathlib.Algebra.Order.Field.Rat
 
@@ -15,6 +16,103 @@ namespace Dos.Props.C08
 open Dos Dos.Vss
 
 variable {F G : Type} [Field F] [AddCommGroup G] [Module F G] [DecidableEq F] [DecidableEq G]
+
+/-- regenerated fact (`go/extract/vssfacts` → `Gen/VssFacts.lean`, on every check run): the ordered statement
+skeletons – every check, what it returns, every call – of `Verifier.decryptDeal` (signature verified over the
+RECEIVED bytes `e.DHKey` before they are unmarshalled; the context in the KDF and as associated data),
+`Verifier.ProcessEncryptedDeal`, `aggregator.VerifyDeal` (`validT` against `a.verifiers`, session-id comparison,
+index bound, share check), `validT` and `sessionID` are the ones `Model/VssSym.lean` (`decryptDeal`,
+`processEncryptedDeal`, `verifyDeal`, `validT`, `Sid.h`) transcribes. A change to any of them must be re-modelled. -/
+theorem c08_code_shape :
+    Gen.VssFacts.decryptDeal = [
+      "0| func decryptDeal(e *EncryptedDeal) (*Deal, error)",
+      "1| if e == nil",
+      "2| return nil, errors.New(\"vss: no encrypted deal\")",
+      "1| if err := schnorr.Verify(v.suite, v.dealer, e.DHKey, e.Signature); err != nil",
+      "2| return nil, err",
+      "1| dhKey := v.suite.Point()",
+      "1| if err := dhKey.UnmarshalBinary(e.DHKey); err != nil",
+      "2| return nil, err",
+      "1| pre := dhExchange(v.suite, v.longterm, dhKey)",
+      "1| gcm, err := newAEAD(v.suite.Hash, pre, v.hkdfContext)",
+      "1| if err != nil",
+      "2| return nil, err",
+      "1| if len(e.Nonce) != gcm.NonceSize()",
+      "2| return nil, errors.New(\"vss: wrong nonce length in encrypted deal\")",
+      "1| decrypted, err := gcm.Open(nil, e.Nonce, e.Cipher, v.hkdfContext)",
+      "1| if err != nil",
+      "2| return nil, err",
+      "1| deal := &Deal{}",
+      "1| err = deal.UnmarshalBinary(v.suite, decrypted)",
+      "1| return deal, err"] ∧
+    Gen.VssFacts.processEncryptedDeal = [
+      "0| func ProcessEncryptedDeal(e *EncryptedDeal) (*Response, error)",
+      "1| d, err := v.decryptDeal(e)",
+      "1| if err != nil",
+      "2| return nil, err",
+      "1| if d.SecShare == nil || d.SecShare.V == nil",
+      "2| return nil, errors.New(\"vss: deal without a share\")",
+      "1| if d.SecShare.I != v.index",
+      "2| return nil, errors.New(\"vss: verifier got wrong index from deal\")",
+      "1| t := int(d.T)",
+      "1| sid, err := sessionID(v.suite, v.dealer, v.verifiers, d.Commitments, t)",
+      "1| if err != nil",
+      "2| return nil, err",
+      "1| if v.aggregator == nil",
+      "2| v.aggregator = newAggregator(v.suite, v.dealer, v.verifiers, d.Commitments, t, d.SessionID)",
+      "1| r := &Response{ SessionID: sid, Index: uint32(v.index), Status: StatusApproval, }",
+      "1| if err = v.VerifyDeal(d, true); err != nil",
+      "2| r.Status = StatusComplaint",
+      "1| if err == errDealAlreadyProcessed",
+      "2| return nil, err",
+      "1| if r.Signature, err = schnorr.Sign(v.suite, v.longterm, r.Hash(v.suite)); err != nil",
+      "2| return nil, err",
+      "1| if err = v.aggregator.addResponse(r); err != nil",
+      "2| return nil, err",
+      "1| return r, nil"] ∧
+    Gen.VssFacts.verifyDeal = [
+      "0| func VerifyDeal(d *Deal, inclusion bool) error",
+      "1| if d == nil || d.SecShare == nil || d.SecShare.V == nil",
+      "2| return errors.New(\"vss: deal without a share value\")",
+      "1| if a.deal != nil && inclusion",
+      "2| return errDealAlreadyProcessed",
+      "1| if a.deal == nil",
+      "2| a.commits = d.Commitments",
+      "2| a.sid = d.SessionID",
+      "2| a.deal = d",
+      "1| if !validT(int(d.T), a.verifiers)",
+      "2| return errors.New(\"vss: invalid t received in Deal\")",
+      "1| if !bytes.Equal(a.sid, d.SessionID)",
+      "2| return errors.New(\"vss: find different sessionIDs from Deal\")",
+      "1| sid, err := sessionID(a.suite, a.dealer, a.verifiers, d.Commitments, int(d.T))",
+      "1| if err != nil",
+      "2| return err",
+      "1| if !bytes.Equal(sid, d.SessionID)",
+      "2| return errors.New(\"vss: session id of the deal does not match its dealer, verifiers, commitments and threshold\")",
+      "1| fi := d.SecShare",
+      "1| if fi.I < 0 || fi.I >= len(a.verifiers)",
+      "2| return errors.New(\"vss: index out of bounds in Deal\")",
+      "1| fig := a.suite.Point().Base().Mul(fi.V, nil)",
+      "1| commitPoly := share.NewPubPoly(a.suite, nil, d.Commitments)",
+      "1| pubShare := commitPoly.Eval(fi.I)",
+      "1| if !fig.Equal(pubShare.V)",
+      "2| return errors.New(\"vss: share does not verify against commitments in Deal\")",
+      "1| return nil"] ∧
+    Gen.VssFacts.validT = [
+      "0| func validT(t int, verifiers []kyber.Point) bool",
+      "1| return t >= 2 && t <= len(verifiers) && int(uint32(t)) == t"] ∧
+    Gen.VssFacts.sessionID = [
+      "0| func sessionID(suite suites.Suite, dealer kyber.Point, verifiers, commitments []kyber.Point, t int) ([]byte, error)",
+      "1| h := suite.Hash()",
+      "1| _, _ = dealer.MarshalTo(h)",
+      "1| for _, v := range verifiers",
+      "2| _, _ = v.MarshalTo(h)",
+      "1| for _, c := range commitments",
+      "2| _, _ = c.MarshalTo(h)",
+      "1| _ = binary.Write(h, binary.LittleEndian, uint32(t))",
+      "1| return h.Sum(nil), nil"] :=
+  ⟨rfl, rfl, rfl, rfl, rfl⟩
+
 
 /-- **1a. What opens.**  `decryptDeal` succeeds on `e` with deal `d` iff the DH bytes are signed
 under the verifier's dealer key, decode to a point `X`, the nonce has the AEAD size and the
